@@ -50,6 +50,8 @@ def mk_separable(t, n, strat, ncols):
         others = [r * ncols + c for r in range(n) for c in range(ncols) if c != j]
         obl.append({'kind': 'depends', 'region': 'x', 'cell': i * ncols + j, 'ns': 'b', 'cells': [r * ncols + j for r in range(n)] if strat != 'x' else []})
         obl.append({'kind': 'independent_syntactic', 'region': 'x', 'cell': i * ncols + j, 'ns': 'b', 'cells': others})
+    if t == 'f64':
+        obl.append({'kind': 'no_narrowing', 'region': 'x', 'cells': n * ncols})
     return Witness('solvesep_%s_%s_%d_c%d' % (t, strat, n, ncols), 'solve.' + strat + '.separable', {'type': t, 'n': n, 'strategy': strat, 'cols': ncols}, wit, '',
                    [treg('A', t, [n, n]), treg('b', t, [n, ncols]), treg('x', t, [n, ncols], 'out')], [{'mod': 'wit', 'fn': '@W@', 'args': ['A', 'b', 'x']}], obl)
 
